@@ -105,3 +105,48 @@ M("C03", PR, """        if is_zero(other):  # exponent zero
         elif is_zero(other-1) or is_zero(other+1):  # exponent one
             return self
         return Power(self, other)""", "x**-1 folded to x")
+
+SB = "pymbolic/mapper/substitutor.py"
+M("C08", SB, """    variable_assignments.update(kwargs)
+""", """    pass
+""", "substitute() ignores keyword assignments")
+M("C08", SB, """        try:
+            return variable_assignments[var]
+        except KeyError:
+            if isinstance(var, primitives.Variable):
+                try:
+                    return variable_assignments[var.name]
+                except KeyError:
+                    return None
+            else:
+                return None""", """        if isinstance(var, primitives.Variable) and var.name in variable_assignments:
+            return variable_assignments[var.name]
+        try:
+            return variable_assignments[var]
+        except KeyError:
+            return None""", "name lookup before expression lookup")
+M("C08", SB, """    def map_lookup(self, expr):
+        result = self.subst_func(expr)
+        if result is not None:
+            return result
+        else:
+            return IdentityMapper.map_lookup(self, expr)""", """    def map_lookup(self, expr):
+        return IdentityMapper.map_lookup(self, expr)""", "lookup keys no longer intercepted")
+M("C08", SB, """    def map_variable(self, expr):
+        result = self.subst_func(expr)
+        if result is not None:
+            return result""", """    def map_variable(self, expr):
+        result = self.subst_func(expr)
+        if result is not None:
+            return self.rec(result) if result != expr else result""", "replacement substituted again")
+M("C08", SB, """    def map_variable(self, expr):
+        result = self.subst_func(expr)
+        if result is not None:
+            return result
+        else:
+            return expr""", """    def map_variable(self, expr):
+        result = self.subst_func(expr)
+        if result:
+            return result
+        else:
+            return expr""", "falsy replacement (0) ignored")
